@@ -27,6 +27,7 @@ type variant struct {
 	Replace string   `json:"replace"`
 	Expect  string   `json:"expect"`
 	Note    string   `json:"note"`
+	Control bool     `json:"control,omitempty"` // positive control for a rule whose expected count on /repo is zero: also run in the quick tier
 	Extra   *struct {
 		File    string `json:"file"`
 		Find    string `json:"find"`
@@ -81,7 +82,7 @@ type selfResult struct {
 	Note    string   `json:"note"`
 }
 
-func selfValidate(c *Ctx, repo string) {
+func selfValidate(c *Ctx, repo string, controlsOnly bool) {
 	vs, err := loadVariants(c.Verif)
 	if err != nil {
 		fmt.Println("SELFTEST: cannot load variants:", err)
@@ -95,6 +96,9 @@ func selfValidate(c *Ctx, repo string) {
 	}
 	var mine []variant
 	for _, v := range vs {
+		if controlsOnly && !v.Control {
+			continue
+		}
 		for _, p := range v.Props {
 			if p == c.Prop {
 				mine = append(mine, v)
@@ -158,9 +162,17 @@ func selfValidate(c *Ctx, repo string) {
 	counts := map[string]int{}
 	for _, r := range results {
 		counts[r.Result]++
-		fmt.Printf("SELFTEST property=%s variant=%s expect=%s result=%s %v\n", c.Prop, r.Variant, r.Expect, r.Result, r.NewKeys)
+		tag := "SELFTEST"
+		if controlsOnly {
+			tag = "CONTROL"
+		}
+		fmt.Printf("%s property=%s variant=%s expect=%s result=%s %v\n", tag, c.Prop, r.Variant, r.Expect, r.Result, r.NewKeys)
 	}
-	c.analysed["self_validation"] = map[string]any{
+	name := "self_validation"
+	if controlsOnly {
+		name = "positive_controls"
+	}
+	c.analysed[name] = map[string]any{
 		"what":     "in-memory edits of the current tree (go/packages overlay), one per rule instance class; the rule must report a new failing obligation",
 		"variants": results,
 		"summary":  counts,
